@@ -112,3 +112,82 @@ unit(id="matcharm.recreate", src=_v.MARM, path=[("impl", "MatchArm"), ("fn", "re
           f"Ok(b) => r is Ok && r->Ok_0 is Value && r->Ok_0->Value_0@.len() == cs.len() "
           f"&& (forall|i: int| 0 <= i < cs.len() ==> r->Ok_0->Value_0@[i].instruction == cs[i]) && r->Ok_0->Value_1.instruction == b }}) }})"),
      ])
+
+# ---------------------------------------------------------------- tuple / array literals: folding ------------
+_LOOP_INV = ("for instruction in it: &*{seq}\n"
+             "            invariant\n"
+             "                it.seq().len() == {seq}@.len(),\n"
+             "                forall|j: int| 0 <= j < it.seq().len() ==> *it.seq()[j] == {seq}@[j],\n"
+             "                array@.len() == it.index@,\n"
+             "                forall|j: int| 0 <= j < array@.len() ==> (#[trigger] {seq}@[j]).instruction == Instruction::Variable(array@[j]),\n"
+             "        {{")
+_CONSTS = ("proof {{\n"
+           "            assert forall|s: int| #[trigger] seq_res({seq}@, s, 0, Seq::empty()) == Ok::<Seq<Variable>, ExecStop>(array@) by {{\n"
+           "                lemma_seq_of_constants({seq}@, array@, s, 0, Seq::empty());\n"
+           "                assert(Seq::<Variable>::empty() + array@.subrange(0, array@.len() as int) =~= array@); }}\n"
+           "            assert forall|s: int| #[trigger] seq_st({seq}@, s, 0) == s by {{\n"
+           "                lemma_seq_of_constants({seq}@, array@, s, 0, Seq::empty()); }}\n"
+           "        }}\n        ")
+_ALLC = "(forall|j: int| 0 <= j < {seq}@.len() ==> (#[trigger] {seq}@[j]).instruction is Variable)"
+unit(id="tuple.create_from_elements", src="src/instruction/tuple.rs", path=[("impl", "Tuple"), ("fn", "create_from_elements")],
+     impl="TupleIns", mod="tuple_fold", fragments=["opspecs", "semantics", "seqlemmas"],
+     broadcast=["sem_axioms::sem", "sem_axioms3::sem3"],
+     injections=[
+         ("for instruction in &*elements {", _LOOP_INV.format(seq="elements")),
+         ("Instruction::Variable(Variable::Tuple(array.into()))",
+          _CONSTS.format(seq="elements") + "Instruction::Variable(Variable::Tuple(array.into()))"),
+     ],
+     ensures=[
+         ("tuple.fold.unobservable", ["C04", "C07"],
+          "(forall|s: int| #[trigger] eval_res(r, s) == tuple_res(TupleIns { elements }, s)) "
+          "&& (forall|s: int| #[trigger] eval_st(r, s) == tuple_st(TupleIns { elements }, s))"),
+         ("tuple.fold.constants_become_a_constant_tuple", ["C04"],
+          _ALLC.format(seq="elements") + " ==> r is Variable && r->Variable_0 is Tuple "
+          "&& r->Variable_0->Tuple_0.elems@.len() == elements@.len() "
+          "&& (forall|j: int| 0 <= j < elements@.len() ==> elements@[j].instruction == Instruction::Variable(#[trigger] r->Variable_0->Tuple_0.elems@[j]))"),
+         ("tuple.fold.otherwise_rebuilt_in_place", ["C04"],
+          "!" + _ALLC.format(seq="elements") + " ==> r == Instruction::Tuple(TupleIns { elements })"),
+     ])
+_RSEQ = "rseq_res(self.{f}@, " + RS0 + ", 0, Seq::empty())"
+_IH = ("let {v} = recreate_instructions(&self.{f}, local_variables)?;\n"
+       "        proof {{\n"
+       "            let is = rseq_res(self.{f}@, old(local_variables).st@, 0, Seq::empty())->Ok_0;\n"
+       "            assert forall|s: int| seq_res({v}@, s, 0, Seq::empty()) == #[trigger] seq_res(self.{f}@, s, 0, Seq::empty()) by {{\n"
+       "                lemma_recreated_list_behaves_alike(self.{f}@, old(local_variables).st@, {v}@, is, s); }}\n"
+       "            assert forall|s: int| seq_st({v}@, s, 0) == #[trigger] seq_st(self.{f}@, s, 0) by {{\n"
+       "                lemma_recreated_list_behaves_alike(self.{f}@, old(local_variables).st@, {v}@, is, s); }}\n"
+       "        }}")
+unit(id="tuple.recreate", src="src/instruction/tuple.rs", path=[("impl", "Recreate for Tuple"), ("fn", "recreate")],
+     impl="TupleIns", stubs=["tuple.create_from_elements"], fragments=["opspecs", "semantics", "seqlemmas"],
+     broadcast=["sem_axioms::sem", "sem_axioms3::sem3"],
+     injections=[("let elements = recreate_instructions(&self.elements, local_variables)?;", _IH.format(v="elements", f="elements"))],
+     ensures=[
+         ("tuple.recreate.unobservable", ["C04", "C07"],
+          "r is Ok ==> (forall|s: int| #[trigger] eval_res(r->Ok_0, s) == tuple_res(*self, s)) "
+          "&& (forall|s: int| #[trigger] eval_st(r->Ok_0, s) == tuple_st(*self, s))"),
+         ("tuple.recreate.element_error_stops", ["C04"],
+          f"{_RSEQ.format(f='elements')} is Err ==> r == Err::<Instruction, ExecError>({_RSEQ.format(f='elements')}->Err_0)"),
+         ("tuple.recreate.elements_recreated_left_to_right", ["C04"], f"{RS9} == rseq_st(self.elements@, {RS0}, 0)"),
+     ])
+
+_ARRC = _CONSTS.format(seq="instructions")
+unit(id="array.recreate", src="src/instruction/array.rs", path=[("impl", "Recreate for Array"), ("fn", "recreate")],
+     impl="ArrayIns", fragments=["opspecs", "semantics", "seqlemmas"], broadcast=["sem_axioms::sem", "sem_axioms3::sem3"],
+     injections=[
+         ("let instructions = recreate_instructions(&self.instructions, local_variables)?;", _IH.format(v="instructions", f="instructions")),
+         ("for instruction in &*instructions {", _LOOP_INV.format(seq="instructions").replace("        {", 
+          "                local_variables.st@ == rseq_st(self.instructions@, old(local_variables).st@, 0),\n"
+          "                rseq_res(self.instructions@, old(local_variables).st@, 0, Seq::empty()) is Ok,\n"
+          "                forall|s: int| seq_res(instructions@, s, 0, Seq::empty()) == #[trigger] seq_res(self.instructions@, s, 0, Seq::empty()),\n"
+          "                forall|s: int| seq_st(instructions@, s, 0) == #[trigger] seq_st(self.instructions@, s, 0),\n"
+          "        {")),
+         ("Ok(Instruction::Variable(array.into()))", _ARRC + "Ok(Instruction::Variable(array.into()))"),
+     ],
+     ensures=[
+         ("array.recreate.unobservable", ["C04", "C07"],
+          "r is Ok ==> (forall|s: int| #[trigger] eval_res(r->Ok_0, s) == array_res(*self, s)) "
+          "&& (forall|s: int| #[trigger] eval_st(r->Ok_0, s) == array_st(*self, s))"),
+         ("array.recreate.element_error_stops", ["C04"],
+          f"{_RSEQ.format(f='instructions')} is Err ==> r == Err::<Instruction, ExecError>({_RSEQ.format(f='instructions')}->Err_0)"),
+         ("array.recreate.elements_recreated_left_to_right", ["C04"], f"{RS9} == rseq_st(self.instructions@, {RS0}, 0)"),
+     ])
